@@ -457,6 +457,23 @@ def main():
             return True
         except FileExistsError:
             return False
+    # determinism sample first (so that a wall budget that cuts the plan cannot skip it):
+    # two runs that some worker of this class also executes as part of the plan
+    nre = 0
+    for index in job.get("recheck") or []:
+        if deadline is not None and time.monotonic() - t_start > deadline:
+            break
+        if nre >= 2:
+            continue
+        nre += 1
+        try:
+            spec = make_spec(server, seed, index, tier, entry_of(index))
+            out = execute(server, spec, want_cov=False)
+            print(json.dumps({"type": "rerun", "index": index,
+                              "records_digest": out.get("records_digest")}))
+        except Exception:
+            print(json.dumps({"type": "rerun", "index": index, "records_digest": None}))
+        sys.stdout.flush()
     ppid0 = os.getppid()
     for index in job["indices"]:
         if os.getppid() != ppid0:
@@ -528,21 +545,6 @@ def main():
             line["replay"] = path
             line["reproduced"] = True
         print(json.dumps(line))
-        sys.stdout.flush()
-    nre = 0
-    for index in job.get("recheck") or []:
-        if deadline is not None and time.monotonic() - t_start > deadline:
-            break
-        if index in mine or nre >= 2:
-            continue
-        nre += 1
-        try:
-            spec = make_spec(server, seed, index, tier, entry_of(index))
-            out = execute(server, spec, want_cov=False)
-            print(json.dumps({"type": "rerun", "index": index,
-                              "records_digest": out.get("records_digest")}))
-        except Exception:
-            print(json.dumps({"type": "rerun", "index": index, "records_digest": None}))
         sys.stdout.flush()
     if server.peer is not None:
         server.peer.close()
